@@ -404,6 +404,54 @@ theorem seto_comment_line (name : List Char) (on : Bool) :
   rw [readBack, this]
   rfl
 
+/-! ## `umask` -/
+
+/-- permission bits that `format_symbolic` prints for the group at shift `sh`, as `Permission::Literal` -/
+def grpMask (a sh : Nat) : Nat :=
+  (if a >>> sh &&& 4 ≠ 0 then 0o444 else 0) ||| (if a >>> sh &&& 2 ≠ 0 then 0o222 else 0)
+    ||| (if a >>> sh &&& 1 ≠ 0 then 0o111 else 0)
+
+/-- the clauses `u=…,g=…,o=…` -/
+def symbolicShape (a : Nat) : List (Nat × List (Nat × Listing.Perm)) :=
+  [(0o700, [(2, .lit (grpMask a 6) false)]), (0o070, [(2, .lit (grpMask a 3) false)]),
+   (0o007, [(2, .lit (grpMask a 0) false)])]
+
+set_option maxRecDepth 100000 in
+/-- the text printed by `umask -S` parses (`parse_clauses`) to three `who=literal` clauses (finite: 512 masks) -/
+theorem parse_formatSymbolic : ∀ a : Fin 512,
+    Listing.parseClauses ((Listing.formatSymbolic a.val).length + 1) (Listing.formatSymbolic a.val)
+      = some (symbolicShape a.val) := by
+  decide
+
+theorem grpMask_recombine : ∀ a : Fin 512,
+    (grpMask a.val 0 &&& 7) ||| ((grpMask a.val 3 &&& 56) ||| (grpMask a.val 6 &&& 448)) = a.val := by
+  decide
+
+/-- ★ `listing_reparse`, `umask -S`: for every mask and EVERY current mask of the shell that evaluates it,
+    `umask <output of umask -S>` sets exactly the listed mask (allowed bits `a`). -/
+theorem umask_symbolic_reread (a : Fin 512) (cur : Nat) :
+    Listing.applySymbolic (Listing.formatSymbolic a.val) cur = some a.val := by
+  have hn : ∀ x y z : Nat,
+      ((z &&& 7) ||| ((((y &&& 56) ||| (((x &&& 448) ||| (cur &&& 63)) &&& 455))) &&& 504))
+        = (z &&& 7) ||| ((y &&& 56) ||| (x &&& 448)) := by
+    intro x y z
+    simp only [Nat.and_or_distrib_right, Nat.and_assoc]
+    simp
+  unfold Listing.applySymbolic
+  rw [parse_formatSymbolic a]
+  have h63 : Listing.notBits 448 = 63 := by decide
+  have h455 : Listing.notBits 56 = 455 := by decide
+  have h504 : Listing.notBits 7 = 504 := by decide
+  simp only [Option.map_some, symbolicShape, Listing.evalClauses, List.foldl_cons, List.foldl_nil,
+    h63, h455, h504]
+  simp only [show (2 : Nat) = 0 ↔ False by decide, show (2 : Nat) = 1 ↔ False by decide, if_false,
+    Bool.false_and, Bool.false_eq_true, Nat.or_zero]
+  rw [hn, grpMask_recombine a]
+
+/-- ★ `listing_reparse`, `umask`: the three octal digits printed by `umask` denote the mask (all 512). -/
+theorem umask_octal_reread : ∀ m : Fin 512, Listing.parseOctal3 (Listing.octal3 m.val) = some m.val := by
+  decide
+
 /-- evaluates `readBack` on concrete text by the unfolding equations (`lex` is defined by well-founded
     recursion, so `decide` cannot run it) -/
 local macro "eval_readback" : tactic =>
